@@ -15,13 +15,13 @@ CONSTANTS
   TsAudiosRtsp = {"none", "aac8000", "aac16000", "aac22050", "aac44100", "aac48000", "aac96000", "pcma8000", "pcmu8000", "opus48000"}
   TsAudiosOther = {"none", "aac44100", "pcma8000", "opus48000"}
   TsRtspCls = {"single", "agg", "fu"}
-  TsPsPk = {"p1", "p2", "p3", "p4", "p5", "p6", "p7", "p8", "p9"}
+  TsPsPk = {"p1", "p2", "p3", "p4", "p5", "p6", "p7", "p8", "p9", "p10", "p11", "p13"}
   TsCustFmt = {"annexb", "avcc"}
   TsS0s = {65533}
   Win = 3
   MaxPert = 1
   RtspCls = {"single", "agg", "fu"}
-  PsPk = {"p1", "p2", "p3", "p4", "p5", "p6"}
+  PsPk = {"p1", "p2", "p3", "p4", "p5", "p6", "p10", "p11", "p12", "p13", "p14"}
   CustFmt = {"annexb", "annexb3", "avcc"}
 INVARIANTS DesignConforms
 ACTION_CONSTRAINT EmitS
